@@ -72,8 +72,6 @@ def scan(facts, body, err_substr=None, include_expansions=False):
             continue
         if c.declared in (paths.FROM_RESIDUAL, paths.TRY_BRANCH):
             continue
-        if c.dest and c.dest[0] == 0:
-            continue
         dl = paths.op_place_local(c.dest)
         dty = body.local_ty(c.dest[0]) if c.dest else ""
         name = c.name
@@ -95,7 +93,7 @@ def scan(facts, body, err_substr=None, include_expansions=False):
                         out.append({"kind": short + "(|_|)", "call": c, "ety": _err_type_of(a0ty), "closure_ignores_error": ign})
                     continue
         # --- dropped results
-        if dl is not None and is_result_ty(dty, err_substr) and c.target is not None:
+        if dl is not None and dl != 0 and is_result_ty(dty, err_substr) and c.target is not None:
             us = [u for u in uses.get(dl, []) if u[2] not in ("drop",)]
             if not us:
                 out.append({"kind": "drop", "call": c, "ety": _err_type_of(dty)})
